@@ -313,7 +313,57 @@ def scatter_loop(I, node, env, src):
     while e is not None and lst not in e.vars:
         e = e.parent
     (e or env).vars[lst] = VSeq(vs.src_len, lambda i: VAny(f(i)), None, 'list')
+    if _scatter_exact(I, node, env, src, stores[0], vs, f):
+        return True
     I.assumption('scatter-loop abstraction: list contents after `for i, v in updates: lst[i] = v` are not tracked (length is)')
+    return True
+
+
+def _scatter_exact(I, node, env, src, store, vs, f):
+    """Exact meaning of `for idx, val in updates: lst[idx] = val` (last write wins):
+       (1) a position no update addresses keeps its old element;
+       (2) the position of an update that no later update addresses again holds that update's value;
+    plus the safety obligation that every index is in range (a list store out of range raises)."""
+    from .values import to_pyval
+    tgt = node.target
+    st_t = store.targets[0]
+    if not (isinstance(src, VSeq) and src.pred is None and isinstance(tgt, ast.Tuple) and len(tgt.elts) == 2
+            and all(isinstance(x, ast.Name) for x in tgt.elts)
+            and isinstance(st_t.slice, ast.Name) and st_t.slice.id == tgt.elts[0].id
+            and isinstance(store.value, ast.Name) and store.value.id == tgt.elts[1].id):
+        return False
+    n, m = vs.src_len, src.src_len
+    probe = src.elem(fresh_int('sp'))
+    if not (isinstance(probe, VTuple) and len(probe.items) == 2 and isinstance(probe.items[0], (VInt, VAny))):
+        return False
+
+    def raw(t):
+        it = src.elem(t).items[0]
+        if isinstance(it, VInt):
+            return it.t
+        from .model import PyVal as _P
+        return _P.i(it.t)
+
+    def J(t):
+        r = raw(t)
+        return z3.If(r < 0, r + n, r)
+
+    def V(t):
+        return to_pyval(src.elem(t).items[1])
+    from . import symcoll
+    qual = env.qual.split('.', 1)[-1]
+    tq = z3.Int(fresh_name('st'))
+    I.ex.prove(f'{qual}:scatter-index-in-range',
+               z3.ForAll([tq], z3.Implies(z3.And(tq >= 0, tq < m), z3.And(raw(tq) >= -n, raw(tq) < n))), kind='safety')
+    j, t, u = z3.Int(fresh_name('sj')), z3.Int(fresh_name('st')), z3.Int(fresh_name('su'))
+    untouched = z3.ForAll([t], z3.Implies(z3.And(t >= 0, t < m), J(t) != j))
+    a1 = z3.ForAll([j], z3.Implies(z3.And(j >= 0, j < n, untouched), f(j) == to_pyval(vs.elem(j))), patterns=[f(j)])
+    last = z3.ForAll([u], z3.Implies(z3.And(u > t, u < m), J(u) != J(t)))
+    body2 = z3.Implies(z3.And(t >= 0, t < m, last), f(J(t)) == V(t))
+    pats = symcoll.choose_patterns([t], body2)
+    a2 = z3.ForAll([t], body2, patterns=pats) if pats else z3.ForAll([t], body2)
+    I.ex.ctx.add(a1)
+    I.ex.ctx.add(a2)
     return True
 
 
